@@ -21,7 +21,7 @@ func init() {
 			"C12.whole: every success return of the JSON path is preceded, after the value is complete, by an end-of-input check of an enumerated form (Token()==io.EOF, More(), InputOffset, json.Valid), and the object path consumes its closing delimiter. " +
 			"C12.zero: every comparison against the exported limit MaxObjectKeys is conjoined with a `!= 0` test (0 disables, as at the five MaxInputLength sites). " +
 			"C12.count: in the key loop every path from a member read to the success exit passes a limit comparison that covers that read (order independence of the verdict). " +
-			"C12.object: the members reach newSize as decoded by decodeValue / decodeUnit, which accept only a number resp. string token (null included in "wrongly typed") — C08.object under this property. C12.keyeq: a member is value / unit only when its lower-cased key equals the constant (C04.keys). C12.keys: lower-cased key switch against lower-case constants equal to the marshal keys; duplicate tests precede decoding and return the matching ErrDuplicated*; newOrError maps nil to ErrMissingValueKey/ErrMissingUnitKey; decodeValue/decodeUnit accept exactly json.Number/string; the default arm returns ErrUnexpectedKey iff RuleDisallowUnknownKeys else skips nested values with a depth counter. " +
+			"C12.object: the members reach newSize as decoded by decodeValue / decodeUnit, which accept only a number resp. string token (null counts as wrongly typed) — C08.object under this property. C12.keyeq: a member is value / unit only when its lower-cased key equals the constant (C04.keys). C12.keys: lower-cased key switch against lower-case constants equal to the marshal keys; duplicate tests precede decoding and return the matching ErrDuplicated*; newOrError maps nil to ErrMissingValueKey/ErrMissingUnitKey; decodeValue/decodeUnit accept exactly json.Number/string; the default arm returns ErrUnexpectedKey iff RuleDisallowUnknownKeys else skips nested values with a depth counter. " +
 			"C12.all: the member loop is left for the success path only on the edge where More() reports no member left (otherwise later duplicates, unknown keys and the member count go unexamined and the verdict depends on member order). " +
 			"S-WRAP: sentinels bound to %w; errors of the object reader re-wrapped by newParseError.",
 		NotDecided:  []string{"encoding/json tokenisation itself", "numeric equality of results (C08)", "behaviour for inputs longer than MaxInputLength (C18)"},
